@@ -143,7 +143,7 @@ def arrangements(tier, seed):
         for arr in itertools.product(KINDS, repeat=w):
             pool.append(list(arr))
     rng.shuffle(pool)
-    k = 24 if tier == 'quick' else 200
+    k = 24 if tier == 'quick' else 90
     for arr in pool[:k]:
         customs = [x for x in arr if x in ('c1', 'c2')]
         refs = sorted(set(customs)) if (customs and 'description' not in arr and rng.random() < 0.7) else None
